@@ -89,7 +89,7 @@ def _eip_cases():
             requires=[counts] + alternate,
             proof={('before_lib', 'numpy.interp', 1): phase_eip.before_interp(first),
                    ('before_lib', 'numpy.interp', 2): phase_eip.before_interp(first),
-                   ('before_assign', 'pha'): phase_eip.before_merge(first),
+                   ('before_call', '_merge_phases'): phase_eip.before_merge(first),
                    ('before_return',): phase_eip.before_return(first)},
             ensures=list(phase_eip.ENSURES), ensures_using=dict(phase_eip.ENSURES_USING)))
         for has_r, has_d in ((True, True), (True, False), (False, True)):
@@ -111,7 +111,7 @@ def _eip_cases():
                 requires=[counts_m] + alternate + flank,
                 proof={('before_lib', 'numpy.interp', 1): phase_eip.before_interp(first, 'mid'),
                        ('before_lib', 'numpy.interp', 2): phase_eip.before_interp(first, 'mid'),
-                       ('before_assign', 'pha'): phase_eip.before_merge(first, 'mid'),
+                       ('before_call', '_merge_phases'): phase_eip.before_merge(first, 'mid'),
                        ('before_return',): phase_eip.before_return(first, 'mid')},
                 ensures=ens, ensures_using=using))
     return out
